@@ -10,7 +10,7 @@ namespace O2P.Gate
 
 section congrRel
 variable (F : List (List String)) (s : List String) (L : List String)
-  (hemp : "" ∉ s) (hproj : s = [] ∨ ∃ s0 ∈ F, ∀ x ∈ L, (x ∈ s0 ↔ x ∈ s))
+  (hemp : "" ∉ s) (hproj : ∃ s0 ∈ F, ∀ x ∈ L, (x ∈ s0 ↔ x ∈ s))
 include hemp hproj
 
 theorem child_step_rel (c c' : PTree) (p : List String) (hcL : ∀ x ∈ c.labels, x ∈ L)
@@ -114,7 +114,7 @@ theorem labelsL_rel_sub : ∀ (cs cs' : List PTree), Rel2 (fun c c' => ∀ x ∈
 theorem node_congr_rel (F : List (List String)) (hF : ∀ s0 ∈ F, "" ∉ s0) (op : POp) (cs cs' : List PTree)
     (hnd : (NE (PTree.labelsL cs)).Nodup) (hg : Rel2 (Good F) cs cs') :
     Good F (.node op cs) (.node op cs') := by
-  have key : ∀ (s : List String), "" ∉ s → (s = [] ∨ ∃ s0 ∈ F, ∀ x ∈ PTree.labelsL cs, (x ∈ s0 ↔ x ∈ s)) →
+  have key : ∀ (s : List String), "" ∉ s → (∃ s0 ∈ F, ∀ x ∈ PTree.labelsL cs, (x ∈ s0 ↔ x ∈ s)) →
       (PTree.node op cs).sem s → (PTree.node op cs').sem s := by
     intro s hemp hproj h
     cases op with
@@ -132,8 +132,8 @@ theorem node_congr_rel (F : List (List String)) (hF : ∀ s0 ∈ F, "" ∉ s0) (
       exact ⟨ps, semSome_rel F s (PTree.labelsL cs) hemp hproj cs cs' ps hg (fun _ hx => hx) hnd h1
         (fun x hx => (h2 x).mpr hx) (fun x hx _ => (h2 x).mp hx), hne, h2⟩
     | other => simp only [PTree.sem] at h
-  refine ⟨?_, ?_, ?_, ?_⟩
-  · intro s hne hp hs
+  refine ⟨?_, ?_, ?_⟩
+  · intro s hp hs
     obtain ⟨s0, hs0, hag⟩ := hp
     simp only [PTree.labels] at hag
     have hemp : "" ∉ s := by
@@ -141,9 +141,7 @@ theorem node_congr_rel (F : List (List String)) (hF : ∀ s0 ∈ F, "" ∉ s0) (
       have := PTree.sem_sub _ s hs "" he
       simp only [PTree.labels] at this
       exact hF s0 hs0 ((hag "" this).mpr he)
-    exact key s hemp (Or.inr ⟨s0, hs0, hag⟩) hs
-  · intro hs
-    exact key [] (by simp) (Or.inl rfl) hs
+    exact key s hemp ⟨s0, hs0, hag⟩ hs
   · intro x hx
     simp only [PTree.labels] at hx ⊢
     exact labelsL_rel_sub cs cs' (Rel2.imp (fun h => h.lab) hg) x hx
@@ -275,8 +273,31 @@ theorem rebuild_good (F : List (List String)) (hFnd : ∀ s0 ∈ F, s0.Nodup) (R
     intro p hp y hy
     obtain ⟨s', _, rfl, _⟩ := mem_projF.mp (c1 p hp)
     exact (mem_interS.mp hy).2
-  refine ⟨?_, ?_, ?_, ?_⟩
-  · intro s hne hp hs
+  have hnil : ¬ (PTree.node .or (R.map PTree.leaf)).sem [] := by
+    intro hs
+    simp only [PTree.sem] at hs
+    obtain ⟨ps, h1, hne, h2⟩ := hs
+    have hall := flatten_nil_parts ps (fun x hx => by simpa using (h2 x).mpr hx)
+    -- a selected leaf produces a non-empty set
+    have : ∀ (l : List String) (ps : List (List String)), PTree.semSome (l.map PTree.leaf) ps →
+        (∀ p ∈ ps, p = []) → ps = [] := by
+      intro l
+      induction l with
+      | nil => intro ps h _; simpa [PTree.semSome] using h
+      | cons a as ih =>
+        intro ps h hp
+        simp only [List.map_cons, PTree.semSome] at h
+        rcases h with h | ⟨p, ps', rfl, h1, _⟩
+        · exact ih ps h hp
+        · have hp0 : p = [] := hp p (List.mem_cons_self ..)
+          subst hp0
+          simp only [PTree.sem] at h1
+          have := (h1 a).mpr (by simp)
+          cases this
+    exact hne (this R ps h1 hall)
+  refine ⟨?_, ?_, ?_⟩
+  · intro s hp hs
+    have hne : s ≠ [] := fun e => hnil (e ▸ hs)
     obtain ⟨s0, hs0, hag⟩ := hp
     simp only [PTree.labels, labelsL_leaves] at hag
     have hsR : ∀ x ∈ s, x ∈ R := by
@@ -339,28 +360,6 @@ theorem rebuild_good (F : List (List String)) (hFnd : ∀ s0 ∈ F, s0.Nodup) (R
         rw [List.mem_filter] at hp
         simp only [Bool.and_eq_true, subsetS_iff] at hp
         exact hp.2.1 x hxp
-  · intro hs
-    exfalso
-    simp only [PTree.sem] at hs
-    obtain ⟨ps, h1, hne, h2⟩ := hs
-    have hall := flatten_nil_parts ps (fun x hx => by simpa using (h2 x).mpr hx)
-    -- a selected leaf produces a non-empty set
-    have : ∀ (l : List String) (ps : List (List String)), PTree.semSome (l.map PTree.leaf) ps →
-        (∀ p ∈ ps, p = []) → ps = [] := by
-      intro l
-      induction l with
-      | nil => intro ps h _; simpa [PTree.semSome] using h
-      | cons a as ih =>
-        intro ps h hp
-        simp only [List.map_cons, PTree.semSome] at h
-        rcases h with h | ⟨p, ps', rfl, h1, _⟩
-        · exact ih ps h hp
-        · have hp0 : p = [] := hp p (List.mem_cons_self ..)
-          subst hp0
-          simp only [PTree.sem] at h1
-          have := (h1 a).mpr (by simp)
-          cases this
-    exact hne (this R ps h1 hall)
   · intro x hx
     simp only [PTree.labels, labelsL_parts, labelsL_leaves] at hx ⊢
     obtain ⟨p, hp, hxp⟩ := List.mem_flatten.mp hx
